@@ -321,7 +321,7 @@ def run(ctx: Ctx):
     ctx.floor("bad_calls_diagnosed", 40)
     ctx.floor("reentrant_macro_cases", 5)
     need = ("out", "hook", "match", "expr") if quick else ("out", "hook", "match", "expr", "loop", "finishcode", "yieldcode", "macro")
-    ctx.inconclusive_if(any(not kinds.get(k) for k in need) or len(kinds) < 6, "some argument kinds never generated: %s" % kinds)
+    ctx.inconclusive_if(any(not kinds.get(k) for k in need), "some argument kinds never generated: %s" % kinds)
     ctx.rule = ("case = (program, input): the inlined program and its macro-ized twin (1-3 extracted macros, nested, parameters of every kind) "
                 "must be accepted alike and give identical per-byte traces; plus mutated calls (extra/missing/wrong-kind/undefined argument) "
                 "that must be rejected with a diagnosed error; non-trivial = trace has an event, or a mutated call; distinct by (source, input)")
